@@ -654,6 +654,18 @@ def check_geometry(case):
     coords = {"source_position": src, "sample_position": smp, "position": pos}
     cont = make_container(coords, ops, case["container"])
     _compare_all(run_components(cont), ref, unit, "scippneutron.<name>(" + case["container"] + ")")
+    # ... and again after the beamline in the *same* object has been moved (cyclic permutation of the
+    # components of every position): a result remembered from the first query would now be stale
+    # (seeded/C03-s4).
+    moved = dict(case)
+    for name in ("source_position", "sample_position", "position"):
+        moved[name] = dict(case[name], values=[[v[1], v[2], v[0]] for v in case[name]["values"]])
+    ref2 = _ref_positions(moved)
+    if not _positions_out_of_domain(ref2):
+        for name in ("source_position", "sample_position", "position"):
+            cont.coords[name] = vec_var(moved[name], unit)
+        _compare_all(run_components(cont), ref2, unit,
+                     "scippneutron.<name>(" + case["container"] + ") after moving the beamline in the same object")
     _compare_all(run_graphs(make_container(coords, ops, "dataarray")), ref, unit, "graph.beamline.<name>()")
     return labs, _position_labels(case, ref, labs)
 
